@@ -1,0 +1,30 @@
+//go:build verif
+
+package at
+
+// Contracts for the goblvc verifier (see /verif/DESIGN.md). Comments only.
+//
+// C13 (Austria, UID): "U" and eight digits. The seven digits after the U are weighted
+// 1 2 1 2 1 2 1, a product above 9 contributes its digit sum; the eighth digit is
+// (10 - (sum + 4) mod 10) mod 10.
+//@ pin taxCodeMultipliers []int{1, 2, 1, 2, 1, 2, 1}
+//@ global len(taxCodeMultipliers) == 7 && taxCodeMultipliers[0] == 1 && taxCodeMultipliers[1] == 2 && taxCodeMultipliers[2] == 1 && taxCodeMultipliers[3] == 2 && taxCodeMultipliers[4] == 1 && taxCodeMultipliers[5] == 2 && taxCodeMultipliers[6] == 1
+//@ spec atM(i int) int = ite(i % 2 == 0, 1, 2)
+//@ spec atD(p int) int = ite(p > 9, p / 10 + p % 10, p)
+//@ rec atSum(val string, n int) int = ite(n <= 0, 0, atSum(val, n - 1) + atD((s_byte(val, n) - 48) * atM(n - 1)))
+//@ spec atCheck(val string) int = (10 - (atSum(val, 7) + 4) % 10) % 10
+//@ pred atFormat(val string) bool = len(val) == 9 && s_byte(val, 0) == 85 && (forall i int :: 1 <= i && i < 9 ==> s_byte(val, i) >= 48 && s_byte(val, i) <= 57)
+//
+//@ func commercialCheck(val) (err)
+//@   requires atFormat(val)
+//@   ensures [iff] err == nil <==> s_byte(val, 8) - 48 == atCheck(val)
+//@   loop 1 invariant total == real(atSum(val, idx)) && atSum(val, idx) >= 0 && atSum(val, idx) <= 9 * idx
+//
+// The whole rule: a non-empty code is accepted exactly when it has the format and its last
+// digit is the check digit. What the pattern accepts is assumed (global), tied to its text (pin).
+//@ pin taxCodeRegexps []*regexp.Regexp{regexp.MustCompile(`^U\d{8}$`)}
+//@ global len(taxCodeRegexps) == 1 && taxCodeRegexps[0] != nil && (forall s string :: reMatch(taxCodeRegexps[0], s) <==> atFormat(s))
+//@ func validateTaxCode(value) (err)
+//@   ensures [iff] typeis(value, cbc.Code) && unboxed(value, cbc.Code) != "" ==> (err == nil <==> atFormat(unboxed(value, cbc.Code)) && s_byte(unboxed(value, cbc.Code), 8) - 48 == atCheck(unboxed(value, cbc.Code)))
+//@   ensures [skip] !typeis(value, cbc.Code) || unboxed(value, cbc.Code) == "" ==> err == nil
+//@   loop 1 invariant !match && (forall j int :: 0 <= j && j < idx ==> !reMatch(taxCodeRegexps[j], val))
